@@ -80,7 +80,7 @@ impl Prop for C05Prop {
         }
     }
     fn rule(&self) -> &'static str {
-        "sub-configurations: push-history (arbitrary stream x finalize/reset/probe at random positions x buffers {0..4, ladder, Vec with allocation failure}), long (noise runs and payloads of 255..257, 65534..65537, 70000, thorough: 2^17+3..300000 through push decoder and readers), batch (decode / decode_streaming polled up to 64 times past the end), reader (4 sources x source faults x read/next/read_nb/next_nb polled past end; probe frame after an injected error must be the last payload delivered), encoders (iterator encoder polled 64 times past the end, buffer encoder into ArrayBuf<N> around the frame length and into Vec with allocation failure). Oracle: no panic (overflow checks on) / abort / hang, every usability probe delivers. Non-trivial = the run contained at least one fault, API call, capacity overflow or long segment; distinct = scenario fingerprint"
+        "sub-configurations: push-history (arbitrary stream x finalize/reset/probe at random positions x buffers {0..4, ladder, Vec with allocation failure}), long (noise runs and payloads of 255..257, 65534..65537, 70000, thorough: 2^17+3..300000 through push decoder and readers), batch (decode / decode_streaming polled up to 64 times past the end), reader (4 sources x source faults x read/next/read_nb/next_nb polled past end; probe frame after an injected error must be the last payload delivered), encoders (iterator encoder polled 64 times past the end, buffer encoder into ArrayBuf<N> around the frame length and into Vec with allocation failure). Oracle: no panic (overflow checks on) / abort / hang, every usability probe delivers. The directed corpus and a share of the seeded runs are repeated in the unoptimised build of the simulator (no tail calls, debug assertions) on a 48 MiB stack. Non-trivial = the run contained at least one fault, API call, capacity overflow or long segment; distinct = scenario fingerprint"
     }
     fn assumptions(&self) -> Vec<&'static str> {
         vec![
